@@ -3,14 +3,16 @@
     queue worker) implies MutualExclusion, FramesWhole, FreshStart, InOrderAtMostOnce, HeaderRight,
     ErrMeansNotDelivered, NoLossSafe, Recovers, WriterErrorJustified for all interleavings of 2 (3) senders and all
     placements of <= 2 (3) environment faults, direct and queue mode; NoLossWhenHealthy (liveness) under weak fairness;
-    two deliberately broken designs (no lock; writer kept across a reconnect) are refuted by TLC.
+    three deliberately broken designs (no lock; writer kept across a reconnect; the background worker dialling
+    without the send lock in direct mode -- golib before the repair) are refuted by TLC.
 (A) Trace_OneWay: the real OneWayTcpClient against a scripted loopback collector: concurrent senders, queue mode
     (SendAndClear and the background worker), cut scripts, listener outages, frames larger than the writer buffer.
     Hook events are sequenced under the send lock by one atomic counter.  What the collector read on every connection
     is a prophecy (kernel timing is not observable); the specification decides whether the outcome each socket write
     reported is allowed together with what arrived.
 (B) gate schedules (first trace): the blocking hook parks sender A inside its critical section while B calls Send;
-    faults are imposed at exact points while the sender is parked."""
+    faults are imposed at exact points while the sender is parked; the background worker is parked inside Connect
+    (between finding no connection and dialling) while a sender makes the client's first send (gen wdial)."""
 import json, os, re
 import vf
 
@@ -18,6 +20,10 @@ MODE_ONLY = {
     "direct": {"DoEnqueue", "DoEnqueueFull", "Dequeue", "WorkerSkipFlush", "WorkerDone", "DoIdleFlush"},
     "queue": {"DoCall", "DoLock", "Unlock", "Return"},
 }
+
+
+# steps of the deliberately broken designs (enabled only in the configurations that must be refuted)
+BROKEN_ONLY = {"DoWorkerDialRacy", "WorkerDialStart", "WorkerDialEnd"}
 
 
 def zero_actions(out):
@@ -62,7 +68,7 @@ def body(run):
     r1 = run.mc("MC_OneWay", cfg="MC_OneWay_thorough.cfg" if th else "MC_OneWay.cfg", coverage=True, workers=w)
     r2 = run.mc("MC_OneWay", cfg="MC_OneWay_queue_thorough.cfg" if th else "MC_OneWay_queue.cfg", coverage=True, workers=w)
     z1, z2 = zero_actions(r1["out"]), zero_actions(r2["out"])
-    vac = (z1 - MODE_ONLY["direct"]) | (z2 - MODE_ONLY["queue"]) | (z1 & z2)
+    vac = ((z1 - MODE_ONLY["direct"]) | (z2 - MODE_ONLY["queue"]) | (z1 & z2)) - BROKEN_ONLY
     run.extra["mc_actions_never_taken"] = sorted(vac)
     if vac:
         raise vf.MachineryError("model checking of OneWay is vacuous: actions never taken: %s" % sorted(vac))
@@ -73,6 +79,7 @@ def body(run):
     run.mc("MC_OneWay", cfg="MC_OneWay_qlive.cfg", workers=w)
     run.mc("MC_OneWay", cfg="MC_OneWay_nolock.cfg", expect_violation="MutualExclusion", workers=1)
     run.mc("MC_OneWay", cfg="MC_OneWay_keepwriter.cfg", expect_violation="FreshStart", workers=1)
+    run.mc("MC_OneWay", cfg="MC_OneWay_wdial.cfg", expect_violation="NoLossSafe", workers=1)
 
     # ---- (A) + (B)
     out, meta = run.drive("c06", timeout=run.pick(600, 2400))
@@ -105,7 +112,10 @@ def body(run):
         "queue mode: accepted enqueues are placed in the order the drainer dequeued them, no earlier than their call; the "
         "specification rejects an order that contradicts real time (Tick) and a dequeue that is not the head of the queue; "
         "a full queue is exercised only in sequential schedules (the bounded FIFO itself is C11)",
-        "a timeout of the gate schedule (250 ms for B to enter A's critical section) can only cost detection, never raise an alarm",
+        "a timeout of the gate schedules (250 ms for B to enter A's critical section; 300 ms for a sender to get past the lock while "
+        "the worker sits in its dial) can only cost detection, never raise an alarm; a history in which a wait FOR a state ran into "
+        "its bound (90 s) is void (not judged); more than 10% void histories are a machinery failure (exit 2)",
+        "the background worker runs in direct mode only in the wdial schedules (its poll period of 5 s makes it invisible to short free-running schedules)",
         "packs are TextPacks with one record; the frame header is net type 10/0, 8-byte pcode, 8-byte license hash "
         "(computed in the harness with hash/crc32's table), 4-byte length; payload length and digest are computed with the standard library only",
         "deviation D1 of the code (no Close after a failed Flush in direct mode / SendAndClear; the next send fails and closes) is allowed by the specification",
